@@ -86,9 +86,13 @@ func parseQLine(l string) qline {
 // dropping assumptions can only lose proofs, never create them.
 func (o *Obligation) Query(withModel bool) string { return o.query(withModel, false) }
 
+var plainInstOnly = false
+
 // query builds the SMT-LIB text; with dropQuant the universally quantified hypotheses are
 // replaced by their instances at the goal's skolem constants (a weaker, quantifier-free context).
-func (o *Obligation) query(withModel bool, dropQuant bool) string {
+func (o *Obligation) query(withModel bool, dropQuant bool) string { return o.queryMode(withModel, dropQuant, false) }
+
+func (o *Obligation) queryMode(withModel bool, dropQuant bool, plainOnly bool) string {
 	ex := o.ex
 	var b strings.Builder
 	if withModel {
@@ -174,7 +178,11 @@ func (o *Obligation) query(withModel bool, dropQuant bool) string {
 				if !sharesRoot(arrayRoots(q.text, lines, defOf), goalRoots) {
 					continue // the hypothesis talks about arrays the goal does not mention
 				}
-				for _, inst := range instantiate(q.text, o.instTerms(goalLine+" "+q.text)) {
+				its := o.instTerms(goalLine + " " + q.text)
+				if plainOnly {
+					its = o.Skolems
+				}
+				for _, inst := range instantiate(q.text, its) {
 					if dropQuant && strings.Contains(inst, "(forall ((") {
 						continue // a quantifier in negative position remains: drop the line from the quantifier-free variant
 					}
@@ -259,11 +267,21 @@ func solveOne(o *Obligation, timeoutS int) {
 	}
 	q := o.Query(false)
 	var atts []attempt
+	if o.Vacuity && timeoutS > 10 {
+		// only "unsat" (no return reachable) fails the guard; the usual answer is "unknown" after the full
+		// timeout (quantified assumptions), so the guard gets a shorter budget: it is a sanity check against
+		// contradictory assumptions, which the solvers expose within a second when they exist
+		timeoutS = 10
+	}
 	if len(o.Skolems) > 0 {
 		// quantifier-free variant: hypotheses instantiated at the goal's skolems, quantified originals dropped
+		qf0 := o.queryMode(false, true, true)
+		if !strings.Contains(qf0, "(forall ((") && qf0 != q {
+			atts = append(atts, attempt{solvers[0], qf0, "(qf-instances)", false}, attempt{solvers[1], qf0, "(qf-instances)", false})
+		}
 		qf := o.query(false, true)
-		if !strings.Contains(qf, "(forall ((") && qf != q {
-			atts = append(atts, attempt{solvers[0], qf, "(qf-instances)", false}, attempt{solvers[1], qf, "(qf-instances)", false}, attempt{solvers[2], qf, "(qf-instances)", false})
+		if !strings.Contains(qf, "(forall ((") && qf != q && qf != qf0 {
+			atts = append(atts, attempt{solvers[0], qf, "(qf-instances+offsets)", false}, attempt{solvers[2], qf, "(qf-instances+offsets)", false})
 		}
 	} else {
 		// stage 1: z3-new alone, short
@@ -402,6 +420,37 @@ func solveAll(obls []*Obligation, timeoutS int, workers int) {
 	}
 	close(ch)
 	wg.Wait()
+	// Undecided-by-timeout obligations get one more attempt, two at a time with twice the budget: on a
+	// loaded machine (several checks running side by side) a query that needs 10-20 s of solver time can
+	// miss the first deadline. A timeout is never turned into a pass: only an "unsat" answer discharges.
+	var again []*Obligation
+	for _, o := range rest {
+		if !o.Vacuity && o.Status == "timeout" {
+			again = append(again, o)
+		}
+	}
+	if len(again) > 0 && len(again) <= 12 {
+		ch2 := make(chan *Obligation)
+		for i := 0; i < 2; i++ {
+			wg.Add(1)
+			go func() {
+				defer wg.Done()
+				for o := range ch2 {
+					t := o.Time
+					solveOne(o, 2*timeoutS)
+					o.Time += t
+					if o.Status == "unsat" {
+						o.Solver += "(retry)"
+					}
+				}
+			}()
+		}
+		for _, o := range again {
+			ch2 <- o
+		}
+		close(ch2)
+		wg.Wait()
+	}
 }
 
 // solveBatch runs one incremental z3 process over the obligations (which must
